@@ -4,7 +4,7 @@
    collector's join and the whole tool for a line-preserving child.
    Positions are byte offsets (Z); size_t differences are wrapped with u64,
    the int32_t pos_first_delimiter with wrap32.  Model only -- no proofs. *)
-From PP Require Export Base.Bytes Base.Lines Gen.Src_foldfilter Fold.Utf8Scan.
+From PP Require Export Base.Bytes Base.Lines Gen.Src_foldfilter Fold.Utf8Scan Unicode.Utf8Enc.
 Local Open Scope Z_scope.
 
 (* DecodeUTF8(line.data() + p, line.end(), &char_len) *)
@@ -305,24 +305,7 @@ Definition foldfilter_cli (wstr : list Z) (keep : bool) (delims : list Z) (g : l
 
 (* -d <str>: the code points of the argument in order (parse_delimiters: DecodeUTF8Range);
    None = the argument is not valid UTF-8 *)
-Fixpoint parse_delims_fuel (fuel : nat) (bs : list Z) : option (list Z) :=
-  match bs with
-  | [] => Some []
-  | _ =>
-    match fuel with
-    | O => None
-    | S f =>
-      match decode_utf8 bs with
-      | None => None
-      | Some (c, n) =>
-        match parse_delims_fuel f (skipn (Z.to_nat n) bs) with
-        | Some r => Some (c :: r)
-        | None => None
-        end
-      end
-    end
-  end.
-Definition parse_delims (s : list Z) : option (list Z) := parse_delims_fuel (length s) s.
+Definition parse_delims (s : list Z) : option (list Z) := cps_of_utf8 s.
 
 (* foldfilter -w <wstr> [-s] -d <dstr> child *)
 Definition foldfilter_cli2 (wstr : list Z) (keep : bool) (dstr : list Z) (g : list Z -> list Z) (input : list Z) : cres :=
